@@ -95,12 +95,18 @@ class DescriptorFormat:
             "sub_decay_pattern": sub_decay_pattern,
         }
         self.old_config = copy(DescriptorFormat.config)
+        # Formats in force at each (possibly nested) entry of this context object
+        self._saved_configs: list[dict[str, str]] = []
 
     def __enter__(self) -> None:
+        # Remember the format in force now, at entry, rather than at construction
+        old_config = copy(DescriptorFormat.config)
         self.set_config(**self.new_config)
+        self.old_config = old_config
+        self._saved_configs.append(old_config)
 
     def __exit__(self, *args: list[Any]) -> None:
-        self.set_config(**self.old_config)
+        self.set_config(**self._saved_configs.pop())
 
     @staticmethod
     def set_config(decay_pattern: str, sub_decay_pattern: str) -> None:
